@@ -2,8 +2,11 @@ package checks
 
 import (
 	"bytes"
+	"context"
 	"errors"
 	"fmt"
+	"io"
+	"net/url"
 	"sort"
 	"testing"
 	"testing/synctest"
@@ -33,11 +36,38 @@ type c20Getter struct {
 	urls      []string
 	sameInst  int
 	busy      bool
+	errKind   int // which error the failures carry (see c20Failure); errMixed: a different kind each attempt
+	errMixed  bool
+}
+
+type c20NetTimeout struct{}
+
+func (c20NetTimeout) Error() string   { return "c20: i/o timeout" }
+func (c20NetTimeout) Timeout() bool   { return true }
+func (c20NetTimeout) Temporary() bool { return true }
+
+// c20Failure: the errors a real HTTPS getter fails with.  None of them is the retry loop's own
+// deadline, whatever they wrap: all are failed attempts to be retried.
+func c20Failure(kind, idx int, u string) error {
+	switch kind % 6 {
+	case 1: // http.Client.Timeout fired inside the wrapped getter
+		return &url.Error{Op: "Get", URL: u, Err: context.DeadlineExceeded}
+	case 2:
+		return fmt.Errorf("scripted failure #%d: %w", idx+1, context.Canceled)
+	case 3:
+		return io.ErrUnexpectedEOF
+	case 4:
+		return &url.Error{Op: "Get", URL: u, Err: c20NetTimeout{}}
+	case 5:
+		return fmt.Errorf("failed to retrieve %s, status code received 503", u)
+	}
+	return fmt.Errorf("scripted failure #%d", idx+1)
 }
 
 var errC20Busy = errors.New("c20: busy loop detected, run aborted")
 
-func (g *c20Getter) Get(url string) (map[string][]string, []byte, error) {
+func (g *c20Getter) Get(u string) (map[string][]string, []byte, error) {
+	url := u
 	st := time.Since(g.t0)
 	// Three attempts starting at one simulated instant = no waiting at all.
 	if n := len(g.attempts); n > 0 && g.attempts[n-1].start == st {
@@ -58,7 +88,11 @@ func (g *c20Getter) Get(url string) (map[string][]string, []byte, error) {
 	ok := g.failFirst >= 0 && idx >= g.failFirst
 	g.attempts = append(g.attempts, c20Attempt{st, en, ok})
 	if !ok {
-		return nil, nil, fmt.Errorf("scripted failure #%d", idx+1)
+		k := g.errKind
+		if g.errMixed {
+			k += idx
+		}
+		return nil, nil, c20Failure(k, idx, url)
 	}
 	// hand out fresh copies: the oracle compares against the private originals.
 	var h map[string][]string
@@ -173,6 +207,10 @@ func c20Run(r *core.Run) {
 	if emptyBody {
 		r.Probe("successful_response_with_empty_body")
 	}
+	errKind, errMixed := r.T.Draw(6), r.T.Chance(1, 3)
+	if errKind == 1 || errKind == 2 || errMixed {
+		r.Probe("failures_wrap_context_errors")
+	}
 	body := body0
 	url := fmt.Sprintf("https://pcs.example/%x", r.T.Bytes(4))
 	bound := timeout + maxDelay + lat
@@ -206,7 +244,7 @@ func c20Run(r *core.Run) {
 			}
 			// keep the enumeration shape identical under Focus: we need to know when to stop,
 			// which depends on outcomes, so execute silently without judging.
-			g := &c20Getter{failFirst: ff, latency: lat, hdr: hdr, body: body, url: url}
+			g := &c20Getter{failFirst: ff, latency: lat, hdr: hdr, body: body, url: url, errKind: errKind, errMixed: errMixed}
 			res := c20Bubble(r.TB, timeout, maxDelay, g, long)
 			if res.aborted || res.err != nil {
 				gaveUp++
@@ -218,7 +256,7 @@ func c20Run(r *core.Run) {
 		if emptyBody {
 			body = []byte{} // a successful response may have an empty body: it is a success all the same
 		}
-		g := &c20Getter{failFirst: ff, latency: lat, hdr: hdr, body: body, url: url}
+		g := &c20Getter{failFirst: ff, latency: lat, hdr: hdr, body: body, url: url, errKind: errKind, errMixed: errMixed}
 		res := c20Bubble(r.TB, timeout, maxDelay, g, long)
 		r.Eval()
 		r.SimTime += res.elapsed
@@ -307,6 +345,12 @@ func c20Run(r *core.Run) {
 			if ff < 0 {
 				r.Probe("gave_up_within_bound")
 			}
+			// giving up is for when the timeout is used up: an error while even a full MaxRetryDelay wait
+			// would still end inside the timeout means attempts the timeout allows were never made
+			if firstOK < 0 && res.elapsed+maxDelay < timeout {
+				r.Violate("C20:early-giveup", "%s: gave up after %v and %d attempt(s) (last failure: %v) although the timeout is %v and the longest wait %v: the timeout allowed further attempts%s", name, res.elapsed, nAtt, res.err, timeout, maxDelay,
+					tern(ff >= 0, fmt.Sprintf("; attempt %d would have succeeded", ff+1), ""))
+			}
 		}
 		r.Sample("%s: %s after %d attempts, elapsed %v (simulated); attempt starts %v", name, outcome, nAtt, res.elapsed, attemptStarts(g.attempts))
 		r.EndItem()
@@ -373,7 +417,7 @@ func init() {
 			return nCells + 240
 		},
 		Run:         c20Run,
-		MustProbe:   []string{"gave_up_within_bound", "wait_capped_at_max", "success_after_failures_4+", "calls_through_one_long_lived_getter", "successful_response_with_empty_body"},
+		MustProbe:   []string{"gave_up_within_bound", "wait_capped_at_max", "success_after_failures_4+", "calls_through_one_long_lived_getter", "successful_response_with_empty_body", "failures_wrap_context_errors"},
 		SimTimeNote: "sum of fake-clock time elapsed inside RetryHTTPSGetter.Get over all bubbles",
 	})
 }
